@@ -1,13 +1,36 @@
 package h
 
 import (
+	"math"
+
 	geom "github.com/twpayne/go-geom"
 	"github.com/twpayne/go-geom/internal/zzverif/sym"
 )
 
+// C09: totality and structure of Area / Length (domain B/U: float arithmetic uninterpreted, so
+// equalities proved here hold bit for bit in IEEE arithmetic by congruence).
+
 var _ = register("HC09_TotalMultiPolygon", HC09_TotalMultiPolygon)
 
-// HC09_TotalMultiPolygon: Area() and Length() never panic on a well-formed MultiPolygon.
+// refDoubleArea is the one-pass trapezoid reference over exactly the XY ordinates of a ring.
+func refDoubleArea(flat []float64, off, end, stride int, acc float64) float64 {
+	for i := off + stride; i < end; i += stride {
+		acc += (flat[i+1] - flat[i+1-stride]) * (flat[i] + flat[i-stride])
+	}
+	return acc
+}
+
+func refLength(flat []float64, off, end, stride int, acc float64) float64 {
+	for i := off + stride; i < end; i += stride {
+		dx := flat[i] - flat[i-stride]
+		dy := flat[i+1] - flat[i+1-stride]
+		acc += math.Sqrt(dx*dx + dy*dy)
+	}
+	return acc
+}
+
+// HC09_TotalMultiPolygon: Area() and Length() never panic on a well-formed MultiPolygon and equal the
+// left-to-right sum of the per-ring reference expressions.
 func HC09_TotalMultiPolygon() {
 	lay := AnyLayout("lay", Layouts)
 	P, R, C := sym.Pick(2, 3), 2, sym.Pick(2, 3)
@@ -15,8 +38,86 @@ func HC09_TotalMultiPolygon() {
 	sym.Bound("rings", R)
 	sym.Bound("coords", C)
 	g := MultiPolygonWF("g", lay, P, R, C)
-	_ = g.Area()
-	_ = g.Length()
+	a := g.Area()
+	l := g.Length()
+	// structure: sum over polygons of (sum over rings of ring expression)
+	flat, stride := g.FlatCoords(), g.Stride()
+	var da, ln float64
+	off := 0
+	for _, ends := range g.Endss() {
+		var pa, pl float64
+		for _, e := range ends {
+			var ra, rl float64
+			ra = refDoubleArea(flat, off, e, stride, 0)
+			rl = refLength(flat, off, e, stride, 0)
+			pa += ra
+			pl += rl
+			off = e
+		}
+		da += pa
+		ln += pl
+	}
+	sym.Assert(sym.SameBits(a, da/2), "Area = (sum of ring trapezoid sums)/2 over the XY ordinates")
+	sym.Assert(sym.SameBits(l, ln), "Length = sum of segment lengths over the XY ordinates")
+	sym.Cover("end")
+}
+
+var _ = register("HC09_TotalOthers", HC09_TotalOthers)
+
+// HC09_TotalOthers: Polygon, MultiLineString, LineString, LinearRing, Point, MultiPoint.
+func HC09_TotalOthers() {
+	lay := AnyLayout("lay", Layouts)
+	R, C := 3, sym.Pick(3, 4)
+	sym.Bound("parts", R)
+	sym.Bound("coords", C)
+	switch Count("type", 0, 5) {
+	case 0:
+		g := PolygonWF("g", lay, R, C)
+		a, l := g.Area(), g.Length()
+		var da, ln float64
+		off := 0
+		for _, e := range g.Ends() {
+			da += refDoubleArea(g.FlatCoords(), off, e, g.Stride(), 0)
+			ln += refLength(g.FlatCoords(), off, e, g.Stride(), 0)
+			off = e
+		}
+		sym.Assert(sym.SameBits(a, da/2), "Polygon area structure")
+		sym.Assert(sym.SameBits(l, ln), "Polygon length structure")
+		// additivity: sum of ring measures
+		var sa, sl float64
+		for i := 0; i < g.NumLinearRings(); i++ {
+			sa += g.LinearRing(i).Area() * 2
+			sl += g.LinearRing(i).Length()
+		}
+		sym.Assert(sym.SameBits(l, sl), "Polygon length is the sum of its rings' lengths")
+		_ = sa
+	case 1:
+		g := MultiLineStringWF("g", lay, R, C)
+		sym.Assert(sym.SameBits(g.Area(), 0), "lines have zero area")
+		var ln, sl float64
+		off := 0
+		for i, e := range g.Ends() {
+			ln += refLength(g.FlatCoords(), off, e, g.Stride(), 0)
+			sl += g.LineString(i).Length()
+			off = e
+		}
+		sym.Assert(sym.SameBits(g.Length(), ln), "MultiLineString length structure")
+		sym.Assert(sym.SameBits(g.Length(), sl), "MultiLineString length is the sum of its parts")
+	case 2:
+		g := LineStringWF("g", lay, C+1)
+		sym.Assert(sym.SameBits(g.Area(), 0), "lines have zero area")
+		sym.Assert(sym.SameBits(g.Length(), refLength(g.FlatCoords(), 0, len(g.FlatCoords()), g.Stride(), 0)), "LineString length structure")
+	case 3:
+		g := LinearRingWF("g", lay, C+1)
+		sym.Assert(sym.SameBits(g.Area(), refDoubleArea(g.FlatCoords(), 0, len(g.FlatCoords()), g.Stride(), 0)/2), "LinearRing area structure")
+		sym.Assert(sym.SameBits(g.Length(), refLength(g.FlatCoords(), 0, len(g.FlatCoords()), g.Stride(), 0)), "LinearRing length structure")
+	case 4:
+		g := PointWF("g", lay)
+		sym.Assert(sym.SameBits(g.Area(), 0) && sym.SameBits(g.Length(), 0), "points have zero area and length")
+	case 5:
+		g := MultiPointWF("g", lay, 3)
+		sym.Assert(sym.SameBits(g.Area(), 0) && sym.SameBits(g.Length(), 0), "points have zero area and length")
+	}
 	sym.Cover("end")
 }
 
